@@ -22,13 +22,47 @@ Proof. exact suitable_bound. Qed.
 Print Assumptions C15_suitable_bound.
 
 (* ---- bound_Inv is preserved by every operation (span reuse, fresh segment, page free, page /
-   segment abandon, thread exit, heap delete, reclaim-on-free, try_reclaim, reclaim_all, collect,
-   manage) and hence holds in every history ---- *)
+   segment abandon, coalescing, block free / alloc, thread exit, heap delete, reclaim-on-free,
+   try_reclaim, reclaim_all, collect, manage) and hence holds in every history ---- *)
 
 Theorem C15_bound_inv_preserved_partial : forall st o,
   tags_uniform st -> Inv st -> Inv (step st o).
 Proof. exact step_Inv_partial. Qed.
 Print Assumptions C15_bound_inv_preserved_partial.
+
+(* Strengthened forms (every heap tag allowed).  The hypothesis is reduced to `tag_safe` of the one heap that
+   adopts in this step; the 13 operations that are not adoptions (span reuse, fresh segment, page free /
+   abandon, coalescing, block free / alloc, thread exit, heap new / delete, collect, manage) preserve Inv
+   unconditionally, with tagged heaps present. *)
+Theorem C15_bound_inv_preserved_adopter_partial : forall st o,
+  (forall hid h, op_adopter o = Some hid -> find_heap st hid = Some h -> tag_safe (st_heaps st) h) ->
+  Inv st -> Inv (step st o).
+Proof. exact step_Inv_adopter. Qed.
+Print Assumptions C15_bound_inv_preserved_adopter_partial.
+
+Theorem C15_bound_inv_preserved_non_adopting : forall st o, op_adopter o = None -> Inv st -> Inv (step st o).
+Proof. exact step_Inv_non_adopting. Qed.
+Print Assumptions C15_bound_inv_preserved_non_adopting.
+
+Theorem C15_bound_inv_preserved_tag_safe_partial : forall st o, heaps_tag_safe st -> Inv st -> Inv (step st o).
+Proof. exact step_Inv_tag_safe. Qed.
+Print Assumptions C15_bound_inv_preserved_tag_safe_partial.
+
+(* ... and `tag_safe` cannot be weakened: whenever _mi_heap_by_tag can return, for the adopting heap h, a
+   heap t of another arena, reclaim-on-free by h of one abandoned segment that is suitable for h breaks
+   bound_Inv.  The gap between the `_partial` theorems and `C15_full_bound_inv_preserved` is exactly the
+   known finding impl:reclaim-by-tag-exclusive. *)
+Theorem C15_tag_safe_is_necessary : forall heaps h tag t,
+  heap_by_tag heaps h tag = Some t -> h_arena t <> h_arena h ->
+  heap_memid_is_suitable h (unsafe_memid h) = true /\
+  bound_Inv (unsafe_state heaps h tag) /\
+  ~ bound_Inv (attempt_reclaim (unsafe_state heaps h tag) h 1 true true).
+Proof. exact tag_unsafe_breaks. Qed.
+Print Assumptions C15_tag_safe_is_necessary.
+
+Theorem C15_tag_safe_b_sound : forall heaps h, tag_safe_b heaps h = true -> tag_safe heaps h.
+Proof. exact tag_safe_b_sound. Qed.
+Print Assumptions C15_tag_safe_b_sound.
 
 Theorem C15_tags_uniform_preserved : forall st o, op_untagged o = true -> tags_uniform st -> tags_uniform (step st o).
 Proof. exact step_tags. Qed.
